@@ -477,6 +477,7 @@ struct InflateSession {
         uint32_t calls = 0;
         bool last_drained = true;
         bool suspect = false;
+        bool hdr_split = false; // some chunk boundary fell strictly inside the wrapper header
         uint64_t suspect_hash = 0;
 
         uint64_t state_hash()
@@ -514,6 +515,8 @@ struct InflateSession {
                 }
                 if (resumable_hdr && fed + feed < hdr_len && fed + feed > 0)
                         COUNT("probe.split_inside_optional_wrapper_header");
+                if ((mode == ISAL_GZIP || mode == ISAL_ZLIB) && fed + feed < hdr_len && fed + feed > 0)
+                        hdr_split = true;
                 int bs_before = st->block_state;
                 if (feed > 0 || ((flags & 4) && pending > 0)) {
                         Slot *ns = g_arena.alloc(pending + feed, (flags & 32) ? (place ^ 1) : place, "in_chunk", 0, 1);
@@ -852,6 +855,14 @@ struct InflateSession {
 
         void run()
         {
+                run_inner();
+                // a valid wrapped stream that only fails because its header was split across calls is as much a failure of
+                // "headers are parsed ... for any chunking of the input" (C19) as of slicing independence (C07)
+                if (rr.violated() && hdr_split && pristine && rr.oracle.compare(0, 14, "C07.stream_vs_") == 0)
+                        rr.alt = "C19";
+        }
+        void run_inner()
+        {
                 const Json &m = plan.at("mem");
                 rel = m.geti("rel", 1) != 0;
                 place = (int) (m.geti("place") & 1);
@@ -897,14 +908,14 @@ static Json gen_inflate(Rng &r0, const std::string &focus, int tier)
         Json p = Json::obj();
         p.set("prof", "inflate").set("focus", focus);
         int fmt = (int) r.below(3);
-        if (focus == "C11")
+        if (focus == "C11" || focus == "C19")
                 fmt = 1 + (int) r.below(2);
         p.set("os_out", r.chance(1, 6) ? (int64_t) (1 + r.logsize(200000)) : 0);
         p.set("os_sweep", (int) r.chance(1, focus == "C05" || focus == "C06" ? 6 : 20));
-        p.set("fmt", fmt).set("mode", (int) r.below(4)).set("zlevel", (int) r.below(4)).set("ihb", (int) (r.chance(1, 4) ? 15 : 0));
+        p.set("fmt", fmt).set("mode", focus == "C19" ? 0 : (int) r.below(4)).set("zlevel", (int) r.below(4)).set("ihb", (int) (r.chance(1, 4) ? 15 : 0));
         Json src = Json::obj();
         int kind = (int) r.below(3);
-        bool damaged = focus == "C06" ? r.chance(4, 5) : focus == "C11" ? r.chance(3, 4) : focus == "C07" ? false : r.chance(1, 2);
+        bool damaged = focus == "C06" ? r.chance(4, 5) : focus == "C11" ? r.chance(3, 4) : (focus == "C07" || focus == "C19") ? false : r.chance(1, 2);
         uint64_t maxlen = r.chance(1, 12) ? 150000 : r.chance(1, 3) ? 40000 : 4000;
         src.set("kind", kind).set("data", gen_data_spec(r, maxlen, 0)).set("level", (int) r.below(4));
         static const int hbs[] = { 0, 0, 0, 9, 12, 15 };
@@ -926,11 +937,11 @@ static Json gen_inflate(Rng &r0, const std::string &focus, int tier)
         gram.set("s", r.u64() >> 16).set("n", (uint64_t) r.logsize(r.chance(1, 6) ? 100000 : 5000)).set("fault", gf).set("dict", r.chance(1, 5) ? (uint64_t) r.logsize(32768) : 0);
         src.set("gram", gram);
         Json dj = Json::obj();
-        dj.set("n", r.chance(1, 6) ? (uint64_t) (1 + r.logsize(32767)) : 0).set("s", r.u64() >> 20);
+        dj.set("n", r.chance(1, focus == "C19" ? 2 : 6) ? (uint64_t) (1 + r.logsize(32767)) : 0).set("s", r.u64() >> 20);
         src.set("dict", dj);
         p.set("src", src);
         Json gz = Json::obj();
-        gz.set("flags", r.chance(1, 2) ? 0 : (int) r.below(32)).set("mtime", r.u32()).set("xfl", (int) r.below(256)).set("os", (int) r.below(256)).set("s", r.u64() >> 20).set("xlen", (int) r.below(70)).set("nlen", (int) r.below(40)).set("clen", (int) r.below(40));
+        gz.set("flags", r.chance(1, focus == "C19" ? 8 : 2) ? 0 : (int) r.below(32)).set("mtime", r.u32()).set("xfl", (int) r.below(256)).set("os", (int) r.below(256)).set("s", r.u64() >> 20).set("xlen", (int) r.below(70)).set("nlen", (int) r.below(40)).set("clen", (int) r.below(40));
         p.set("gz", gz);
         // ---- damage
         Json dm = Json::arr();
